@@ -17,6 +17,7 @@ _frames = {}          # id(frame) -> small int   (frames are kept alive in _keep
 _keep = []
 _nodes = {}
 _cur = []             # stack of frames whose analyze_stmts is running
+_entered = set()      # frames whose statement loop has started (their initial list and priorities are logged once)
 _limit = [400000]
 
 
@@ -73,9 +74,14 @@ def install(M, job):
 
     @functools.wraps(orig_analyze_stmts)
     def analyze_stmts(self, frame):
+        first = id(frame) not in _entered
+        _entered.add(id(frame))
         f = _fid(frame)
+        wlobj = frame.stmt_worklist
+        wlist = [[int(x[0]), int(x[1])] if isinstance(x, tuple) else [0, int(x)] for x in getattr(wlobj, "work_list", [])]
+        prio = sorted([int(k), int(p)] for k, p in getattr(wlobj, "priority_dict", {}).items()) if first else []
         emit(e="enter", f=f, m=int(frame.method_id), phase=int(self.analysis_phase_id), resumed=bool(frame.interruption_flag),
-             wl=len(frame.stmt_worklist), maxround=int(self.max_analysis_round), nstmts=len(frame.stmt_counters))
+             wl=len(frame.stmt_worklist), maxround=int(self.max_analysis_round), nstmts=len(frame.stmt_counters), first=first, wlist=wlist, prio=prio)
         _cur.append(frame)
         res = None
         try:
@@ -104,18 +110,27 @@ def install(M, job):
             emit(e="peek", f=_fid(fr), s=int(r), cnt=int(fr.stmt_counters.get(r, -1)), loop=int(bound), wl=len(self.work_list))
         return r
 
+    def _stmts(wl):
+        return [int(x[1]) if isinstance(x, tuple) else int(x) for x in wl.work_list]
+
     def pop(self):
         r = o_pop(self)
         if _is_stmt_wl(self):
-            emit(e="pop", f=_fid(_cur[-1]), s=int(r) if r is not None else -1, wl=len(self.work_list))
+            emit(e="pop", f=_fid(_cur[-1]), s=int(r) if r is not None else -1, wl=len(self.work_list), wlist=_stmts(self))
         return r
 
     def add(self, data):
         if _is_stmt_wl(self):
+            if hasattr(data, "__iter__"):
+                data = list(data)
             before = set(self.all_data)
+            order, seen = [], set()
+            for x in (data if isinstance(data, list) else [data]):
+                if x not in before and x not in seen:
+                    order.append(int(x))
+                    seen.add(x)
             r = o_add(self, data)
-            new = sorted(int(x) for x in (set(self.all_data) - before))
-            emit(e="add", f=_fid(_cur[-1]), new=new, wl=len(self.work_list))
+            emit(e="add", f=_fid(_cur[-1]), new=order, wl=len(self.work_list), wlist=_stmts(self))
             return r
         return o_add(self, data)
     WL.peek, WL.pop, WL.add = peek, pop, add
